@@ -8,6 +8,7 @@ import KikiVerif.Proofs.Shift
 import KikiVerif.Spec.Lex
 import KikiVerif.Proofs.Tokenize
 import KikiVerif.Proofs.Layout
+import KikiVerif.Proofs.Separator
 
 namespace KikiVerif.C16
 open KikiVerif KikiVerif.Spec KikiVerif.Text
@@ -131,6 +132,55 @@ theorem C16_leading_whitespace_end_to_end (ws cs sha1 sha2 : Str) (fuel : Nat) (
   | err e => rw [h2] at hl; cases hl
   | panic s => rw [h2] at hl; cases hl
 
+/-- **C16, scanner side, as one statement**: `Spec.Reach src 0 ts post i'` says that the scanner, after emitting
+`ts`, stands at the suffix `post` of `src` — `post` starts at a token boundary (the start of a token, of a
+whitespace character or of a comment).  Putting any layout `L` (`Spec.Layout`: `White_Space` characters and
+complete `//…\n` comments, in any mixture) in at that point leaves the tokens before it untouched and moves
+everything behind it by the length of `L`: the same tokens up to positions, or the same lexical error shifted.
+Read from right to left it is the statement for *removing* layout that stands at a boundary. -/
+theorem C16_layout_at_boundary {src : Str} {ts : List Token} {post : Str} {i' : Nat}
+    (h : Spec.Reach src 0 ts post i') {L : Str} (hL : Spec.Layout L) :
+    ∃ pre, src = pre ++ post ∧
+      (∀ t1, Tokenize.tokenize src = .ok t1 → ∃ tp, t1 = ts ++ tp ∧
+        Tokenize.tokenize (pre ++ L ++ post) = .ok (ts ++ tp.map (Spec.shiftTok (blen L)))) ∧
+      (∀ j c, Tokenize.tokenize src = .err (.lex j c) →
+        Tokenize.tokenize (pre ++ L ++ post) = .err (.lex (j + blen L) c)) := by
+  obtain ⟨pre, e, h1, h2⟩ := Spec.insert_layout_result h hL
+  refine ⟨pre, e, ?_, ?_⟩
+  · intro t1 ht
+    rw [Tokenize.tokenize_eq_scan] at ht ⊢
+    exact h1 t1 ht
+  · intro j c ht
+    rw [Tokenize.tokenize_eq_scan] at ht ⊢
+    exact h2 j c ht
+
+/-- **C16, whole pipeline**: layout put in at any token boundary of an accepted-by-the-tokenizer text changes
+nothing in `generate`'s result except the digest in the header and positions (`Layout.SameResult`: same coded
+grammar, automaton, table, module up to the digest, same conflict, or the same error with its positions shifted
+accordingly) -/
+theorem C16_insert_layout_end_to_end {src : Str} {ts : List Token} {post : Str} {i' : Nat}
+    (h : Spec.Reach src 0 ts post i') {L : Str} (hL : Spec.Layout L) (sha1 sha2 : Str) (fuel : Nat)
+    (t1 : List Token) (ht : Tokenize.tokenize src = .ok t1) :
+    ∃ pre t2, src = pre ++ post ∧ Tokenize.tokenize (pre ++ L ++ post) = .ok t2 ∧
+      Layout.SameResult src (pre ++ L ++ post) sha1 sha2 t1 t2
+        (Generate.stages src sha1 fuel) (Generate.stages (pre ++ L ++ post) sha2 fuel) := by
+  obtain ⟨pre, e, h1, _⟩ := C16_layout_at_boundary h hL
+  obtain ⟨tp, et, h2⟩ := h1 t1 ht
+  refine ⟨pre, _, e, h2, ?_⟩
+  apply Layout.relayout src _ sha1 sha2 fuel t1 _ ht h2
+  rw [et, List.map_append, List.map_append, List.map_map]
+  congr 1
+  apply List.map_congr_left
+  intro t _
+  exact (Spec.erase_shiftTok _ t).symm
+
+/-- the hypotheses are satisfiable in a non-trivial way: in `start S`, the point between the two tokens is a
+scan point, and a comment followed by a tab is layout -/
+example : Spec.Reach "start S".toList 0 [.startKw 0] " S".toList 5 ∧ Spec.Layout "// c\n\t".toList := by
+  constructor
+  · exact .emit (k := 4) (by rfl) (.refl _ _)
+  · exact .comment (body := " c".toList) (by decide) (.ws (by decide) .nil)
+
 end KikiVerif.C16
 
 #print axioms KikiVerif.C16.C16_skip_whitespace
@@ -139,5 +189,7 @@ end KikiVerif.C16
 #print axioms KikiVerif.C16.C16_trailing_comment
 #print axioms KikiVerif.C16.C16_translation_invariant
 #print axioms KikiVerif.C16.C16_layout_insensitive
+#print axioms KikiVerif.C16.C16_layout_at_boundary
+#print axioms KikiVerif.C16.C16_insert_layout_end_to_end
 #print axioms KikiVerif.C16.C16_leading_whitespace_end_to_end
 #print axioms KikiVerif.C16.C16_leading_whitespace
